@@ -45,6 +45,7 @@ def build_pots(collected, ante_part, live, trimmed):
     """
     n = len(collected)
     dead = 0
+    build_pots.orphan = False   # set when a level had no live contributor
     if trimmed:
         contrib = list(collected)
     else:
@@ -63,6 +64,7 @@ def build_pots(collected, ante_part, live, trimmed):
         elig = [i for i in range(n) if live[i] and contrib[i] >= level]
         if not elig:
             elig = prev_elig
+            build_pots.orphan = True
         prev_elig = elig
         while pots and pots[-1][1] == elig:
             amount += pots.pop()[0]
